@@ -42,6 +42,7 @@ from sa.loader import short
 from sa.report import RuleResult
 
 from . import Ctx
+from .common import own_params
 from .common import callee_name
 from .common import calls
 from .common import kw
@@ -342,7 +343,7 @@ def subquery_starts(ctx: Ctx, cls, fn: FuncInfo):  # type: ignore[no-untyped-def
             elif isinstance(node, ast.Call) and isinstance(node.func, ast.Attribute) and path_of(node.func.value) == "self":
                 helper = ctx.repo.find_method(cls, node.func.attr)
                 if helper is not None:
-                    hparams = [a.arg for a in helper.node.args.args][1:]
+                    hparams = own_params(helper)
                     for hp, a in zip(hparams, node.args):
                         if path_of(a):
                             mapping[hp] = path_of(a)
@@ -371,8 +372,18 @@ def subquery_starts(ctx: Ctx, cls, fn: FuncInfo):  # type: ignore[no-untyped-def
 
 
 def path_classes(ctx: Ctx):  # type: ignore[no-untyped-def]
+    """The concrete filter path classes (an intermediate base that only its subclasses instantiate is not one)."""
     base = ctx.repo.require_class("jsonpath.filter.Path")
-    return ctx.repo.subclasses(base, strict=True)
+    return [c for c in ctx.repo.subclasses(base, strict=True) if not ctx.repo.subclasses(c, strict=True)]
+
+
+def path_method(ctx: Ctx, cls, name: str):  # type: ignore[no-untyped-def]
+    """`evaluate` / `evaluate_async` of a concrete path class: its own, or the one it inherits from an intermediate base
+    of the package (helpers it calls on `self` are then looked up in the concrete class). The abstract `Path` has none."""
+    fn = ctx.repo.find_method(cls, name)
+    if fn is None or fn.cls is None or fn.cls.name in ("Path", "FilterExpression"):
+        return None
+    return fn
 
 
 def _is_nodelist_expr(ctx: Ctx, cls, v: Optional[ast.expr], depth: int) -> bool:  # type: ignore[no-untyped-def]
@@ -396,7 +407,7 @@ def r2_2(ctx: Ctx) -> RuleResult:
     n_methods = 0
     for cls in path_classes(ctx):
         for name in ("evaluate", "evaluate_async"):
-            fn = cls.methods.get(name)
+            fn = path_method(ctx, cls, name)
             if fn is None:
                 continue
             n_methods += 1
@@ -707,7 +718,7 @@ def r2_5(ctx: Ctx) -> RuleResult:
     lt_fn = ctx.repo.find_method(ctx.repo.require_class("JSONPathEnvironment"), lt_name)
     if lt_fn is None:
         raise AnalysisError(f"R2.5: ordering primitive {lt_name} not found")
-    p = [a.arg for a in lt_fn.node.args.args][1:3]
+    p = own_params(lt_fn)[:2]
     cmps = [n for n in ast.walk(lt_fn.node) if isinstance(n, ast.Compare) and len(n.ops) == 1
             and isinstance(n.ops[0], (ast.Lt, ast.Gt)) and path_of(n.left) in p and path_of(n.comparators[0]) in p]
     if not cmps:
@@ -857,10 +868,12 @@ def r2_8(ctx: Ctx) -> RuleResult:
 
     rr = RuleResult("R2.8", "an empty node list argument of a value parameter is Nothing", floor=1)
     fn = ctx.repo.require_func("FunctionExtension._unpack_node_lists")
-    params = [a.arg for a in fn.node.args.args]
-    if len(params) < 3:
+    params = [a.arg for a in fn.node.args.args + fn.node.args.kwonlyargs]
+    # the parameter that holds the function is the one whose `.arg_types` is read (whatever its position or name)
+    typed = [p_ for p_ in params if any(isinstance(n, ast.Attribute) and n.attr == "arg_types" and path_of(n.value) == p_ for n in ast.walk(fn.node))]
+    if len(params) < 3 or len(typed) != 1:
         raise AnalysisError("R2.8: _unpack_node_lists(self, func, args) signature changed")
-    funcp = params[1]
+    funcp = typed[0]
     et = ctx.repo.require_class("ExpressionType")
 
     def oracle(t: ast.expr, env: dict) -> Optional[bool]:  # type: ignore[type-arg]
@@ -870,6 +883,12 @@ def r2_8(ctx: Ctx) -> RuleResult:
                 return True
             if "NodeList" in ic[1]:
                 return True
+            if ic[0] != funcp and not ic[0].startswith("self"):
+                # the argument is a node list - a list: a sequence, sized, iterable; not text
+                if set(ic[1]) <= {"Sequence", "list", "Iterable", "Collection", "Sized", "MutableSequence", "Reversible"}:
+                    return True
+                if set(ic[1]) <= {"str", "bytes", "bytearray", "dict", "Mapping", "int", "float", "bool"}:
+                    return False
             return None
         if isinstance(t, ast.Compare) and len(t.ops) == 1:
             l, r, op = t.left, t.comparators[0], t.ops[0]
@@ -1081,4 +1100,28 @@ def r2_10(ctx: Ctx) -> RuleResult:
     return rr
 
 
-RULES = [r2_1, r2_2, r2_3, r2_4, r2_5, r2_6, r2_7, r2_8, r2_9, r2_10]
+def r2_11(ctx: Ctx) -> RuleResult:
+    """A number literal denotes its value: the parser turns an INT token into `int(float(text))`, which is the value
+    only when that is integral - so a literal written with a negative exponent (`5e-1`, `25e-1`, `1e-2`) must reach the
+    parser as a FLOAT token.  The lexer model (sa/tokens.py) reads the literals; the kind of the number token decides."""
+    from .c02 import token_const as _tc  # noqa: PLW0406
+
+    rr = RuleResult("R2.11", "a number literal with a negative exponent is lexed as a float", floor=5)
+    t_float, t_int = _tc(ctx, "TOKEN_FLOAT"), _tc(ctx, "TOKEN_INT")
+    fn = ctx.lexer.compile_fn
+    for lit in ("5e-1", "25e-1", "1e-2", "-5e-1", "15E-1", "5e-10"):
+        toks = [(k, v) for _r, k, v in ctx.lexer.tokens_of(f"$[?@ == {lit}]")]
+        nums = [(k, v) for k, v in toks if v == lit]
+        if len(nums) != 1:
+            raise AnalysisError(f"R2.11: the literal {lit} is not read as one token ({toks})")
+        if nums[0][0] == t_float:
+            rr.ok(fn.loc(), f"{lit}: FLOAT token")
+        elif nums[0][0] == t_int:
+            rr.bad(fn, fn.node, f"the literal {lit} reaches the parser as an integer token: `int(float('{lit}'))` is {int(float(lit))}, not {float(lit)} "
+                   f"(`$[?@ == {lit}]` then compares with {int(float(lit))})", construct=f"{lit} lexed as INT")
+        else:
+            rr.bad(fn, fn.node, f"the literal {lit} is lexed as {nums[0][0]}, not as a number", construct=f"{lit} lexed as {nums[0][0]}")
+    return rr
+
+
+RULES = [r2_1, r2_2, r2_3, r2_4, r2_5, r2_6, r2_7, r2_8, r2_9, r2_10, r2_11]
